@@ -903,6 +903,15 @@ pub fn replay_sweep_bits(kv: &crate::plan::Kv) -> Vec<Violation> {
 
 pub fn check_c03(l: &Ledger, entries: &[(String, String)], spec: &PropSpec) -> Vec<Violation> {
     let mut out = vec![];
+    if let Some((_, v)) = entries.iter().find(|(k, _)| k == "sweep") {
+        let kv = crate::plan::parse_kv(v);
+        if crate::plan::kv_str(&kv, "kind", "") == "c03x" {
+            let k = crate::plan::kv_u64(&kv, "k", 0);
+            let variant = crate::plan::kv_u64(&kv, "variant", 0);
+            let bytes = crate::server::extra_probe_message(k, variant);
+            return tap_c03(&bytes, None, k * 7 + variant).into_iter().map(|(key, d)| viol("C03", key, 0, d)).collect();
+        }
+    }
     if let Some((idx, msg)) = l.panicked() {
         let st = &l.steps[idx];
         let loc = msg.rsplit(" at ").next().unwrap_or("?").to_string();
@@ -1232,6 +1241,18 @@ pub fn extra_c03(spec: &PropSpec, args: &CheckArgs) -> ExtraResult {
         }
     });
     let mut res = merged.into_inner().unwrap();
+    // the table of further attribute kinds, each as a message of its own, through the wire tap
+    for k in 0..crate::server::N_EXTRA_KINDS {
+        for variant in 0..crate::server::N_EXTRA_VARIANTS {
+            let bytes = crate::server::extra_probe_message(k, variant);
+            res.evaluations += 1;
+            for (key, d) in tap_c03(&bytes, None, k * 7 + variant) {
+                res.violations.push((viol("C03", key, 0, format!("attribute kind {} variant {}: {}", k, variant, d)), vec![("sweep".to_string(), format!("kind=c03x k={} variant={}", k, variant))]));
+            }
+        }
+    }
+    res.counters.insert("c03_extra_kinds_usable".into(), crate::server::usable_extra_kinds().len() as u64);
+    res.counters.insert("c03_extra_kinds_total".into(), crate::server::N_EXTRA_KINDS);
     res.samples.push("systematic sweep: for each sampled valid in-flight response, header / attribute / nested length fields set to every value 0..=original+8 and a multi-byte or quoting sequence injected at every offset of every string attribute; each variant decoded in 16 configurations and delivered to the client in the exact state it had when the original arrived".to_string());
     res
 }
